@@ -1,7 +1,8 @@
 import Driver.Run
 import Driver.Fam.Entry
 import Driver.Fam.Extra
+import Driver.Fam.Big
 open Driver
 /-- families of area "entry" (C10 coverage audit: uncovered entry points, path-taking wrappers) -/
 def main (args : List String) : IO UInt32 :=
-  run [Fam.Entry.entrymut, Fam.Entry.filewrap, Fam.Extra.extra] args
+  run [Fam.Entry.entrymut, Fam.Entry.filewrap, Fam.Extra.extra, Fam.Big.bigmut, Fam.Big.resource] args
